@@ -464,7 +464,17 @@ func (dm *DagModifier) modifyDag(n ipld.Node, offset uint64) (cid.Cid, error) {
 				return cid.Cid{}, err
 			}
 
-			node.Links()[i].Cid = k
+			// Links() copies the slice but not the links, and so does
+			// ProtoNode.Copy: the *Link is shared with the node this
+			// modifier was created from and with every node handed out by
+			// GetNode. Replace it instead of mutating it in place.
+			links := node.Links()
+			lnk := *links[i]
+			lnk.Cid = k
+			links[i] = &lnk
+			if err := node.SetLinks(links); err != nil {
+				return cid.Cid{}, err
+			}
 
 			// Recache serialized node
 			_, err = node.EncodeProtobuf(true)
